@@ -83,6 +83,7 @@ class Ctx:
         self.notes = []
         self.t0 = time.time()
         self._pool = None
+        self.vtask = collections.defaultdict(list)   # sig -> task reference of each kept case (same order as viols)
 
     # ---- merging -------------------------------------------------------
     def add(self, res):
@@ -90,6 +91,7 @@ class Ctx:
         for sig, case in res["viols"]:
             if len(self.viols[sig]) < CAP_PER_SIG:
                 self.viols[sig].append(case)
+                self.vtask[sig].append(res.get("task"))
         for k, v in res["vcount"].items():
             self.vcount[k] += v
         self.out |= res["out"]
@@ -114,11 +116,12 @@ class Ctx:
         args = list(args)
         if not args:
             return
+        tasks = [(func.__module__, func.__name__, a) for a in args]
         if NPROC <= 1 or len(args) == 1:
-            for a in args:
-                self.add(func(a))
+            for t in tasks:
+                self.add(_run_task(t))
             return
-        for res in self.pool().imap_unordered(func, args, chunksize):
+        for res in self.pool().imap_unordered(_run_task, tasks, chunksize):
             self.add(res)
 
     def close(self):
@@ -126,6 +129,30 @@ class Ctx:
             self._pool.close()
             self._pool.join()
             self._pool = None
+
+
+def _run_task(t):
+    """worker entry: run one deterministic task and tag its result with the task reference (for task-level replay)."""
+    modname, funcname, arg = t
+    res = getattr(sys.modules.get(modname) or importlib.import_module(modname), funcname)(arg)
+    res["task"] = t
+    return res
+
+
+def task_replay_fresh(t):
+    """re-run one task in a brand-new interpreter (clean module state); returns the set of signatures it reports."""
+    import base64
+    import pickle
+    import subprocess
+    modname, funcname, arg = t
+    code = ("import sys,pickle,base64,json,importlib; sys.path.insert(0,%r); m=importlib.import_module(%r); "
+            "arg=pickle.loads(base64.b64decode(sys.stdin.buffer.read())); r=getattr(m,%r)(arg); "
+            "print('@@TASK@@'+json.dumps(sorted(r['vcount'])))" % (ROOT, modname, funcname))
+    p = subprocess.run([sys.executable, "-c", code], input=base64.b64encode(pickle.dumps(arg)), capture_output=True, timeout=3600)
+    for ln in p.stdout.decode(errors="replace").split("\n"):
+        if ln.startswith("@@TASK@@"):
+            return set(json.loads(ln[8:]))
+    return set()
 
 
 def load_findings():
@@ -169,7 +196,15 @@ def main(argv=None):
     if a.replay:
         with open(a.replay) as f:
             body = json.load(f)
-        got = mod.replay(body["case"])
+        if isinstance(body["case"], dict) and body["case"].get("kind") == "__task__":
+            import base64
+            import pickle
+            c = body["case"]
+            m2 = importlib.import_module(c["module"])
+            r = getattr(m2, c["func"])(pickle.loads(base64.b64decode(c["arg_b64"])))
+            got = [(s_, cs) for s_, cs in r["viols"] if s_ == body["signature"]][:1]
+        else:
+            got = mod.replay(body["case"])
         if got:
             for sig, case in got:
                 print("REPLAY-FAILS property=%s signature=%s" % (pid, sig))
@@ -196,9 +231,21 @@ def main(argv=None):
         # a violation is re-executed from its replay form before it is believed
         again = mod.replay(json.loads(json.dumps(_jsonable(case))))
         if not any(s == sig for s, _ in again):
-            print("HARNESS-ERROR property=%s signature=%s does not reproduce from its replay form: %s"
-                  % (pid, sig, json.dumps(_jsonable(case), sort_keys=True)[:400]))
-            return 2
+            # the single case does not fail on its own: the failure may depend on the calls made before it in the same
+            # process (hidden caches, carried state).  Re-run the whole deterministic task that produced it in a brand-new
+            # interpreter; if the signature shows up again the violation is real and the task is its replay form.
+            t = ctx.vtask[sig][ctx.viols[sig].index(case)] if sig in ctx.vtask else None
+            if t is not None and sig in task_replay_fresh(t):
+                import base64
+                import pickle
+                case = {"kind": "__task__", "module": t[0], "func": t[1],
+                        "arg_b64": base64.b64encode(pickle.dumps(t[2])).decode(),
+                        "note": "history-dependent: the case below fails only after the earlier calls of this task in one process",
+                        "failing_case": _jsonable(case)}
+            else:
+                print("HARNESS-ERROR property=%s signature=%s does not reproduce from its replay form: %s"
+                      % (pid, sig, json.dumps(_jsonable(case), sort_keys=True)[:400]))
+                return 2
         kf = [k for k in known if fnmatch.fnmatchcase(sig, k["signature"])]
         if kf:
             if kf[0]["signature"] not in reported_known:
@@ -209,8 +256,10 @@ def main(argv=None):
         path = write_replay(pid, sig, case)
         new_viol += ctx.vcount[sig]
         exit_code = 1
-        print("  signature=%s cases=%d first=%s" % (sig, ctx.vcount[sig],
-              json.dumps(_jsonable(case), sort_keys=True)[:600]))
+        shown = case.get("failing_case", case) if isinstance(case, dict) and case.get("kind") == "__task__" else case
+        print("  signature=%s cases=%d%s first=%s" % (sig, ctx.vcount[sig],
+              " [history-dependent: replays as a whole task in a fresh process]" if shown is not case else "",
+              json.dumps(_jsonable(shown), sort_keys=True)[:600]))
         print("VIOLATION property=%s replay=%s" % (pid, os.path.relpath(path, ROOT) if path.startswith(ROOT) else path))
 
     wall = time.time() - ctx.t0
